@@ -26,13 +26,20 @@ mkdir -p "$SCRATCH/repo/zverif" && cp "$VERIF"/harness/*.go "$SCRATCH/repo/zveri
 (cd "$SCRATCH/repo" && go build -o "$SCRATCH/harness" ./zverif) > "$SCRATCH/build.log" 2>&1 || { cat "$SCRATCH/build.log"; echo "INCONCLUSIVE: the transformed tree or the harness does not build"; exit 2; }
 
 RACEBIN=""
-if [ "$PROP" = "C12" ] && [ "$MODE" != "--replay" ] && [ -z "${VERIF_NORACE:-}" ]; then
+NEEDRACE=""
+if [ "$PROP" = "C12" ] && [ "$MODE" != "--replay" ] && [ -z "${VERIF_NORACE:-}" ]; then NEEDRACE=1; fi
+if [ "$MODE" = "--replay" ] && grep -q '"race": "1"' "${3:-/dev/null}" 2>/dev/null; then NEEDRACE=1; fi
+if [ -n "$NEEDRACE" ]; then
   (cd "$SCRATCH/repo" && go build -race -o "$SCRATCH/harness-race" ./zverif) > "$SCRATCH/build-race.log" 2>&1 || { cat "$SCRATCH/build-race.log"; echo "INCONCLUSIVE: -race build failed"; exit 2; }
   RACEBIN="$SCRATCH/harness-race"
 fi
 
 case "$MODE" in
   --replay)
+    if [ -n "$RACEBIN" ]; then
+      GORACE="halt_on_error=0 log_path=$SCRATCH/racelog" "$RACEBIN" raceworker -replay "${3:?replay file}" -log "$SCRATCH/racelog"
+      rc=$?; [ $rc -eq 66 ] && rc=1; exit $rc
+    fi
     "$SCRATCH/harness" replay "${3:?replay file}"
     exit $? ;;
   quick|thorough)
